@@ -1,13 +1,13 @@
 package vc
 
 import (
-	"sort"
-	"go/constant"
-	"go/ast"
 	"fmt"
+	"go/ast"
+	"go/constant"
 	"go/token"
 	"go/types"
 	"os"
+	"sort"
 	"strings"
 
 	"golang.org/x/tools/go/ssa"
@@ -92,6 +92,7 @@ func (f *frame) call(n *node, in *ssa.Call) bool {
 		x.safety(f, n, "nil", "invoke:"+common.Method.Name(), not(eq(recv.C[0], bvLit(0, 32))), in.Pos())
 		res := f.invokeIface(n, recv, common.Method, args, in)
 		n.env[in] = res
+		f.countFailed(n, ifaceMethodID(recv, common.Method), "", res)
 		return true
 	}
 	if callee := common.StaticCallee(); callee != nil {
@@ -105,6 +106,7 @@ func (f *frame) call(n *node, in *ssa.Call) bool {
 		res, ok := f.invokeStatic(n, callee, args, binds, in.Pos(), in)
 		if ok {
 			n.env[in] = res
+			f.countFailed(n, funcID(callee), fullName(callee), res)
 		}
 		return ok
 	}
@@ -348,6 +350,9 @@ func (f *frame) applyContract(n *node, c *Contract, callee *ssa.Function, args [
 		for _, l := range locs {
 			f.havocLoc(n, l)
 		}
+	}
+	if c.ModReflect && !c.ModAll {
+		f.bumpReflectVersion(n)
 	}
 	x.freshBase = append(x.freshBase, x.allocLimit())
 	defer func() { x.freshBase = x.freshBase[:len(x.freshBase)-1] }()
@@ -668,8 +673,9 @@ func (f *frame) intrinsic(n *node, callee *ssa.Function, args []Val) (Val, bool)
 		}
 		*x.modCollect = append(*x.modCollect, modLoc{ptr: a.Bind[0], elems: name == "vcModElems"})
 		return Val{T: callee.Signature.Results()}, true
-	case name == "vcCalls":
-		// vcCalls("callee"): calls of the callee made so far by the function under proof
+	case name == "vcCalls" || name == "vcFailed":
+		// vcCalls("callee"): calls of the callee made so far by the function under proof;
+		// vcFailed("callee"): those of them that returned a non-nil error
 		id := ""
 		if f.curCall != nil && len(f.curCall.Call.Args) == 1 {
 			if k, ok := f.curCall.Call.Args[0].(*ssa.Const); ok && k.Value != nil {
@@ -678,6 +684,9 @@ func (f *frame) intrinsic(n *node, callee *ssa.Function, args []Val) (Val, bool)
 		}
 		if id == "" {
 			unsup("vcCalls needs a string literal")
+		}
+		if name == "vcFailed" {
+			id = failedID(id)
 		}
 		return Val{T: types.Typ[types.Int], C: []string{x.getCounter(n.heap, id)}}, true
 	case name == "vcStreamOf" || name == "vcBufferOf" || name == "vcBuilderOf":
@@ -1234,6 +1243,36 @@ func (f *frame) countCall(n *node, id, full string) {
 	}
 }
 
+// failedID names the companion counter of a counted callee: the calls that returned a
+// non-nil error (read by vcFailed).
+func failedID(id string) string { return id + "!failed" }
+
+// countFailed runs after a counted call returned: when the callee's last result is an error,
+// the failed-call counter goes up by one exactly when that error is not nil.
+func (f *frame) countFailed(n *node, id, full string, res Val) {
+	x := f.x
+	if x.ctr == nil || len(x.ctr.Counts) == 0 || f.spec || x.inSpec() || len(x.stack) != 1 {
+		return
+	}
+	ev := res
+	if len(res.Sub) > 0 {
+		ev = res.Sub[len(res.Sub)-1]
+	}
+	if ev.T == nil || !types.Identical(ev.T, types.Universe.Lookup("error").Type()) || len(ev.C) == 0 {
+		return
+	}
+	for _, c := range x.ctr.Counts {
+		if c == id || (full != "" && c == full) {
+			fid := failedID(c)
+			inc := "(ite " + eq(ev.C[0], bvLit(0, 32)) + " " + bvLit(0, 64) + " " + bvLit(1, 64) + ")"
+			x.setCounter(n.heap, fid, "(bvadd "+x.getCounter(n.heap, fid)+" "+inc+")")
+			for _, ep := range f.activeEpochs(n) {
+				ep.written[counterKey(fid)] = true
+			}
+		}
+	}
+}
+
 // keepCounters carries the ghost call counters over a havoc of the whole heap.
 func (x *Exec) keepCounters(pre, post *Heap) {
 	if x.ctr == nil {
@@ -1241,6 +1280,7 @@ func (x *Exec) keepCounters(pre, post *Heap) {
 	}
 	for _, c := range x.ctr.Counts {
 		x.setCounter(post, c, x.getCounter(pre, c))
+		x.setCounter(post, failedID(c), x.getCounter(pre, failedID(c)))
 	}
 }
 
